@@ -667,4 +667,79 @@ theorem C14_check_sound (secrets strs : List String) (h : leakFree secrets strs 
   have := List.all_eq_true.mp h s hs
   simp [hmem] at this
 
+/-! ## unexported struct fields: outside the theorem's hypothesis, and why -/
+
+mutual
+theorem plainIn_no_unexported : ∀ v : GV, v.plainIn = true → v.hasUnexported = false
+  | .opq _, _ => rfl
+  | .str _, _ => rfl
+  | .num _, _ => rfl
+  | .nilv, _ => rfl
+  | .nilSlice, _ => rfl
+  | .nilMap, _ => rfl
+  | .ptr v, h => by
+    simp only [GV.plainIn] at h
+    obtain ⟨i, rfl⟩ := isOpq_some h
+    rfl
+  | .iface v, h => by simp only [GV.plainIn] at h; simp only [GV.hasUnexported]; exact plainIn_no_unexported v h
+  | .slice vs, h => by simp only [GV.plainIn] at h; simp only [GV.hasUnexported]; exact plainInL_no_unexported vs h
+  | .array vs, h => by simp only [GV.plainIn] at h; simp only [GV.hasUnexported]; exact plainInL_no_unexported vs h
+  | .map kvs, h => by
+    simp only [GV.plainIn, Bool.and_eq_true] at h; simp only [GV.hasUnexported]; exact plainInKV_no_unexported kvs h.2
+  | .struct fs, h => by simp only [GV.plainIn] at h; simp only [GV.hasUnexported]; exact plainInF_no_unexported fs h
+  | .tm _ _ fs, h => by simp only [GV.plainIn] at h; simp only [GV.hasUnexported]; exact plainInF_no_unexported fs h
+  | .sh _ fs, h => by simp only [GV.plainIn] at h; simp only [GV.hasUnexported]; exact plainInF_no_unexported fs h
+theorem plainInL_no_unexported : ∀ vs : List GV, GV.plainInL vs = true → GV.hasUnexportedL vs = false
+  | [], _ => rfl
+  | v :: vs, h => by
+    simp only [GV.plainInL, Bool.and_eq_true] at h
+    simp only [GV.hasUnexportedL, plainIn_no_unexported v h.1, plainInL_no_unexported vs h.2, Bool.or_self]
+theorem plainInKV_no_unexported : ∀ kvs : List (GV × GV), GV.plainInKV kvs = true → GV.hasUnexportedKV kvs = false
+  | [], _ => rfl
+  | (k, v) :: kvs, h => by
+    simp only [GV.plainInKV, Bool.and_eq_true] at h
+    simp only [GV.hasUnexportedKV, plainIn_no_unexported k h.1.1, plainIn_no_unexported v h.1.2, plainInKV_no_unexported kvs h.2, Bool.or_self]
+theorem plainInF_no_unexported : ∀ fs : List (FieldInfo × GV), GV.plainInF fs = true → GV.hasUnexportedF fs = false
+  | [], _ => rfl
+  | (fi, v) :: fs, h => by
+    simp only [GV.plainInF, Bool.and_eq_true] at h
+    simp only [GV.hasUnexportedF, h.1.1, plainIn_no_unexported v h.1.2, plainInF_no_unexported fs h.2, Bool.not_true, Bool.or_self]
+end
+
+/-- the hypothesis of the fmt non-interference theorem excludes every operand that reaches anything through an unexported
+struct field -/
+theorem C14_fmt_hypothesis_excludes_unexported (v : GV) (h : v.plainTop = true) : v.dyn.hasUnexported = false := by
+  unfold GV.plainTop at h
+  generalize v.dyn = w at h ⊢
+  cases w with
+  | ptr u =>
+    simp only [Bool.or_eq_true, Bool.and_eq_true] at h
+    simp only [GV.hasUnexported]
+    rcases h with h | h
+    · obtain ⟨i, rfl⟩ := isOpq_some h; rfl
+    · exact plainIn_no_unexported u h.2
+  | opq i => rfl
+  | str s => rfl
+  | num n => rfl
+  | nilv => rfl
+  | nilSlice => rfl
+  | nilMap => rfl
+  | iface u => exact plainIn_no_unexported _ h
+  | slice vs => exact plainIn_no_unexported _ h
+  | array vs => exact plainIn_no_unexported _ h
+  | map kvs => exact plainIn_no_unexported _ h
+  | struct fs => exact plainIn_no_unexported _ h
+  | tm o vv fs => exact plainIn_no_unexported _ h
+  | sh k fs => exact plainIn_no_unexported _ h
+
+/-- … and rightly so: behind an unexported field fmt consults NO method of the operand (`CanInterface` is false), whatever
+the type implements — `Format`, `String`, `GoString` included — and prints the string from its kind -/
+theorem C14_fmt_unexported_field_ignores_methods (td : TD) (c : FmtCtx) (hp : (c.verb == 'p') = false)
+    (hw : (c.verb == 'w') = false) (hT : (c.verb == 'T') = false) (fi : FieldInfo) (hx : fi.exported = false)
+    (ρ : Nat → String) (i : Nat) : pa td c ρ (.struct [(fi, .opq i)]) = rawString c (ρ i) := by
+  simp [pa, GV.dyn, hp, hw, hT, pv, pvF, hx]
+
+example : pa realTD { verb := 'v' } ρa (.struct [({ name := "headers", exported := false }, .slice [.struct [({ name := "value", exported := false }, .opq 0)]])])
+    = [⟨.rawKind, "s3cr3t"⟩] := by decide
+
 end OtelVerif.C14
